@@ -229,8 +229,20 @@ def agree(run, p, kind, ver, det):
         ok = 'duplicated(' in src and 'keep=False' in src and '~' in src
         run.ob('C06-AGREE', key, ok, 'a duplicates failure flags every member of a duplicated group (duplicated(keep=False), negated)', fn=det)
     elif kind in ('allowed_values', 'rex'):
-        ok = any('~c.isin(violations)' in t or '~c.isin(set(violations))' in t for t in txt)
-        run.ob('C06-AGREE', key, ok, '%s flags exactly the records whose value is among the violations the verifier computed: %s' % (kind, txt), fn=det)
+        # every arm of the detector flags by membership in the violations; an arm that flags every record (a column of the wrong
+        # type) is in agreement only if the verifier, too, fails such a column outright before it looks at values
+        ver_type_guard = any(isinstance(n, ast.If) and 'tdda_type' in norm(n.test) and "'string'" in norm(n.test) and
+                             any(isinstance(r, ast.Return) and isinstance(r.value, ast.Constant) and r.value.value is False for r in n.body)
+                             for n in ast.walk(ver.node))
+        by_member = [t for t in txt if '~c.isin(violations)' in t or '~c.isin(set(violations))' in t]
+        blanket = [s_ for s_ in stores if isinstance(s_.value, ast.Constant) and s_.value.value is False]
+        other = [t for s_, t in zip(stores, txt) if t not in by_member and s_ not in blanket]
+        ok = bool(by_member) and not other and (not blanket or ver_type_guard)
+        why = ''
+        if blanket and not ver_type_guard:
+            why = '; one arm flags every record of a column that is not text, while the verifier judges such a column by its values'
+        run.ob('C06-AGREE', key, ok, '%s flags exactly the records whose value is among the violations the verifier computed: %s%s' % (kind, txt, why),
+               fn=det, node=blanket[0] if (blanket and not ver_type_guard) else None)
 
 
 def outfile(run, p):
